@@ -240,6 +240,24 @@ def run_cf(spec, res):
             calendar=cal, unit=spec['unit'], bounds=spec['bounds'])
         return
     if bounds:
+        # decoding is a query: asking for the edges must not move the
+        # instants a later call decodes
+        try:
+            again = [as_utc_tuple(t) for t in np.atleast_1d(f.getTimes())]
+            res.hook('getTimes.return')
+            want = [cf_tuple(t) for t in np.atleast_1d(cftime.num2date(
+                np.asarray(vals, 'f8'), '%s since %s' % (
+                    spec['unit'], spec['canon']), cal or 'standard'))]
+            if again != want:
+                j = next((i for i, (a, b) in enumerate(zip(again, want))
+                          if a != b), 0)
+                res.viol('wrong-instant:cf:after-bounds',
+                         'units %r: after getTimes(bounds=True), getTimes() '
+                         'decodes value %r to %s, cftime says %s'
+                         % (units, vals[j], again[j] if j < len(again)
+                            else None, want[j]), calendar=cal)
+        except Exception as e:
+            res.note('getTimes-raised:%s' % type(e).__name__)
         return
     # inverse laws (judged only when decoding is right)
     try:
